@@ -1437,6 +1437,15 @@ impl VisitMut for Norm {
                     }
                 }
             }
+            // N15e: `X.clone_from(&Y)` => `X = Y.clone()` (what Clone::clone_from means; only the reuse of X's allocation is dropped)
+            Expr::MethodCall(mc) if mc.method == "clone_from" && mc.args.len() == 1 && matches!(&mc.args[0], Expr::Reference(r) if r.mutability.is_none()) => {
+                let sp = mc.method.span();
+                let x = &mc.receiver;
+                let y = match &mc.args[0] { Expr::Reference(r) => r.expr.clone(), _ => unreachable!() };
+                let ne: Expr = parse_quote!(#x = #y.clone());
+                *e = ne;
+                self.log("N15e-clone_from", sp);
+            }
             // N2f (option float_casts=TYPE): `E as f64` with E of integer type TYPE is a pure but uninterpreted function of E
             // (`hq_TYPE_as_f64`, declared in the unit); Verus gives a cast to a float no meaning at all
             Expr::Cast(c) if self.float_casts.is_some() && matches!(&*c.ty, Type::Path(tp) if tp.path.is_ident("f64")) => {
